@@ -159,6 +159,7 @@ pub fn fault_name(k: &FaultKind) -> &'static str {
         FaultKind::Relabel { .. } => "Relabel",
         FaultKind::SigNegateS => "SigNegateS",
         FaultKind::SigFill { .. } => "SigFill",
+        FaultKind::RepeatHeader { .. } => "RepeatHeader",
         FaultKind::FooterReplaceRaw { .. } => "FooterReplaceRaw",
         FaultKind::RandomEdit { .. } => "RandomEdit",
         FaultKind::AlphabetSwap { .. } => "AlphabetSwap",
@@ -1959,7 +1960,7 @@ fn judge_validators(
                 why,
                 &base_facts(&[("via", vias.join(","))]),
             );
-        } else if active_rejecting.is_empty() && !expectations_fail && time_tri == Tri::MustAccept && which == "main" {
+        } else if active_rejecting.is_empty() && !expectations_fail && time_tri == Tri::MustAccept && which == "main" && !v.validators.iter().any(|x| x.claim.is_unserialisable()) {
             match control_ok {
                 Some(true) => {
                     cx.clause("C16", "all_accepting_validators_do_not_block", idx, false, "Ok (control parser accepts and every validator accepts)", o.short(), &base_facts(&[]));
